@@ -28,7 +28,13 @@ impl LuaGlobalIndex {
 
     pub fn add_global_decl(&mut self, name: &str, decl_id: LuaDeclId) {
         let id = GlobalId::new(name);
-        self.global_decl.entry(id).or_default().push(decl_id);
+        // Keep the declarations of one global in (file id, position) order. Consumers pick
+        // "the first declaration that ..."; with plain insertion order the winner depended on
+        // the order in which files happened to be (re-)analysed.
+        let decls = self.global_decl.entry(id).or_default();
+        let key = |decl_id: &LuaDeclId| (decl_id.file_id.id, u32::from(decl_id.position));
+        let at = decls.partition_point(|existing| key(existing) <= key(&decl_id));
+        decls.insert(at, decl_id);
     }
 
     pub fn get_all_global_decl_ids(&self) -> Vec<LuaDeclId> {
